@@ -122,7 +122,10 @@ def gen_op(rng, mode, n_objects):
         if kind == "from_epoch":
             if n >= 0 and rng.random() < 0.25:
                 n = min(n, 10 ** 9) + gen_fraction(rng)
-            return ["from_epoch", n, rng.random() < 0.4]
+            # the count as an int, an integral float or a numeric string
+            # (the %s parsing path hands the library a string)
+            as_type = rng.choice(["int"] * 6 + ["float", "float", "str"])
+            return ["from_epoch", n, rng.random() < 0.4, as_type]
         if kind == "strptime_s":
             if n < 0:
                 n = -n
@@ -546,7 +549,13 @@ class Sim(object):
             return safe_str(p)
         if kind == "from_epoch":
             n, utc = op[1], op[2]
-            p = data.get_timepoint_from_seconds_since_unix_epoch(n, utc=utc)
+            arg = n
+            if len(op) > 3 and op[3] == "float" and abs(n) < 2 ** 53:
+                arg = float(n)
+            elif len(op) > 3 and op[3] == "str":
+                arg = repr(n)
+            p = data.get_timepoint_from_seconds_since_unix_epoch(
+                arg, utc=utc)
             whole = int(n // 1)
             self.check_point(p, kind, step_no, whole, n - whole, before,
                              "utc" if utc else "local")
